@@ -164,13 +164,15 @@ def opBag (j : Json) : P Json := do
                 | .raised e _ => Json.mkObj [("err", errToJson e)]
                 | .next _ => Json.mkObj [("err", .str "internal")]
               -- what `CM.C02.node_pipeline_value` predicts, when its hypotheses hold: the value of the node's term
-              let hyp := b.wfB && acyclicB b.edges && g.okB && g.callOKB env && impureFns.isEmpty
+              -- `node_compile_ok` predicts `g.okB` from the first two conjuncts
+              let edgesWf := b.edges.all (·.edge.wf)
+              let hyp := b.wfB && edgesWf && acyclicB b.edges && g.callOKB env && impureFns.isEmpty
               let dcfg : DenCfg := { env := env, callNo := 0, impureFns := impureFns, constFns := constFns }
               let pred : Json := match (if hyp then b.term 64 o else none) with
                 | some t => if t.noMissingB then (match (t.den dcfg).v with | .ok v => Json.mkObj [("ok", valToJson v)] | .error e => Json.mkObj [("err", errToJson e)]) else .null
                 | none => .null
               pure (Json.mkObj [("r", r), ("sig", toJson g.signature), ("graph_ok", .bool g.okCB),
-                ("call_ok", .bool (g.callOKB env)), ("nodes", toJson g.nodes.length), ("pipeline_hyp", .bool hyp),
+                ("call_ok", .bool (g.callOKB env)), ("nodes", toJson g.nodes.length), ("pipeline_hyp", .bool hyp), ("compile_hyp", .bool (b.wfB && edgesWf)), ("okB", .bool g.okB),
                 ("predicted", pred)])
         | .virtualInput none => pure (Json.mkObj [("identity", .bool true)])
         | .discarded | .undefined => pure (Json.mkObj [("err", .str "FieldError")])
